@@ -517,6 +517,8 @@ func runServe(raw json.RawMessage) (interface{}, error) {
 		}
 		cmd = exec.Command(bin, args...)
 		cmd.Env = append(os.Environ(), "SSL_CERT_FILE="+env.caFile, "SSL_CERT_DIR="+filepath.Join(env.dir, "no-such-dir"))
+		// the child must not outlive the harness process (shard timeout, per-case watchdog)
+		cmd.SysProcAttr = &syscall.SysProcAttr{Pdeathsig: syscall.SIGKILL}
 		logb = &bytes.Buffer{}
 		cmd.Stdout, cmd.Stderr = logb, logb
 		if err := cmd.Start(); err != nil {
